@@ -387,7 +387,7 @@ impl Variant {
     pub fn from_index(first: u64, prop: &str) -> Variant {
         let alt = (first / 4) % 2 == 1;
         let other_domain = first % 3 == 1;
-        Variant { path_trace: first % 2 == 1, udp: (first / 2) % 2 == 1, swap: alt && prop != "C12" && prop != "C06", p2p: (alt && prop == "C12") || prop == "C14", sdo: if other_domain { 0x1a5 } else { 0 }, domain: if other_domain { 7 } else { 0 }, alt, aml: prop == "C14" && first % 2 == 1, long_timeout: prop == "C14", slow_other_port: prop == "C06" && alt }
+        Variant { path_trace: first % 2 == 1, udp: (first / 2) % 2 == 1, swap: alt && prop != "C12" && prop != "C06", p2p: (alt && prop == "C12") || prop == "C14", sdo: if other_domain { 0x1a5 } else { 0 }, domain: if other_domain { 7 } else { 0 }, alt, aml: (prop == "C14" || prop == "C07") && first % 2 == 1, long_timeout: prop == "C14", slow_other_port: prop == "C06" && alt }
     }
     pub fn index(&self) -> u64 {
         self.path_trace as u64 + 2 * self.udp as u64 + 4 * self.alt as u64
@@ -482,6 +482,10 @@ pub struct World {
     /// when set: every frame the daemon sends on the master side, with the system time (ns) at which it was read
     pub keep_frames: bool,
     pub frames_b: Vec<(u128, RMsg)>,
+    /// C07: frames (bytes, patch) to put between the emulated master's Sync and its Follow_Up ({SEQ} = bytes 30..32 are
+    /// overwritten with the Sync's sequence id), and ahead of its next Delay_Resp (sequence id of the request likewise)
+    pub noise_before_fup: Vec<(Vec<u8>, bool)>,
+    pub noise_before_dresp: Vec<(Vec<u8>, bool)>,
     /// clock identities seen as source of frames on the daemon's master-side segment other than the configured one
     /// (nothing else sends there except the harness, whose own frames are not captured)
     pub unexpected_sources: BTreeSet<[u8; 8]>,
@@ -585,7 +589,7 @@ impl World {
             seen_a_delay_req: vec![],
             log: vec![],
             keep_frames: false,
-            frames_b: vec![],
+            frames_b: vec![], noise_before_fup: vec![], noise_before_dresp: vec![],
             unexpected_sources: BTreeSet::new(),
             a_announces: vec![],
         };
@@ -708,6 +712,12 @@ impl World {
                         let t4 = self.gm_clock(at_a) + self.link_delay_ns as u128;
                         if self.dreqs_answered.len() < 100_000 {
                             self.dreqs_answered.push((m.header.seq, at_a, t4));
+                        }
+                        if let Some((mut b, patch)) = self.noise_before_dresp.pop() {
+                            if b.len() >= 32 {
+                                b[30..32].copy_from_slice(&m.header.seq.to_be_bytes());
+                            }
+                            self.a1.send_bytes(&b, patch);
                         }
                         let r = RMsg::new(T_DELAY_RESP, PARENT, m.header.seq, RBody::DelayResp { receive: RTs::from_ns(t4), requesting: m.header.source });
                         self.a1.send(&r.encode());
@@ -926,6 +936,12 @@ impl World {
         let t1 = self.gm_clock(sent_at).saturating_sub(self.link_delay_ns as u128);
         if self.syncs_sent.len() < 100_000 {
             self.syncs_sent.push((self.sync_seq, sent_at, t1));
+        }
+        if let Some((mut b, patch)) = self.noise_before_fup.pop() {
+            if b.len() >= 32 {
+                b[30..32].copy_from_slice(&self.sync_seq.to_be_bytes());
+            }
+            self.a1.send_bytes(&b, patch);
         }
         let mut f = RMsg::new(T_FOLLOW_UP, PARENT, self.sync_seq, RBody::FollowUp { precise_origin: RTs::from_ns(t1) });
         f.header.log_interval = ANN_LOG;
@@ -2160,6 +2176,306 @@ pub fn case_c03(w: &mut World, t: &mut Tape) -> E2eOut {
     E2eOut { out, inconclusive: None }
 }
 
+// ---------------------------------------------------------------- C07 case (traffic that must have no effect)
+
+/// One case: the daemon is slaved for 3 s to a grandmaster played by the harness whose clock is the system clock (so
+/// that every honest measurement is a few hundred microseconds at most), then for 3-5 s more while frames are sent
+/// that the property says have no effect. Each is built from a frame that would have had an effect and then made
+/// ignorable in exactly one way: another domainNumber / majorSdoId / minorSdoId, versionPTP 1, cut short, an Announce
+/// bearing the daemon's own clock identity, an Announce from outside the acceptable master list (workers with such a
+/// list), a Sync / Follow_Up / Delay_Resp from someone who is not the parent (timed to sit between the parent's Sync
+/// and Follow_Up, or ahead of the parent's Delay_Resp, with the very sequence id), a Delay_Resp for another requester.
+/// Their timestamps are 5 ms to 5 s off, so one that is used shows. Oracle: the observable port states, parent,
+/// grandmaster, stepsRemoved and time properties never change; every measurement the daemon logs stays within 2 ms of
+/// zero; there are no more measurements than honest exchanges; the Announces of the master port keep their content
+/// and count on by one; nobody gets a Delay_Resp or Pdelay_Resp for a request in another domain.
+pub fn case_c07(w: &mut World, t: &mut Tape) -> E2eOut {
+    let mut out = CaseOut::new();
+    if !w.steady() {
+        let d = Instant::now() + Duration::from_millis(2000);
+        w.run_until(d);
+        if !w.steady() {
+            return E2eOut { out, inconclusive: Some(format!("daemon not in (Slave, Master) before the case: {:?}", w.port_states())) };
+        }
+    }
+    w.gm_offset_ns = 0;
+    w.gm_drift_ppm = 0.0;
+    w.gm_epoch_ns = now_ns();
+    w.link_delay_ns = 0;
+    w.emulate_master = true;
+    let d = Instant::now() + Duration::from_millis(3000);
+    w.run_until(d);
+    let key = |w: &World| -> Option<String> {
+        let o = w.observe()?;
+        let i = &o.instance;
+        Some(format!("{:?} parent={:?} steps={} tp={:?}", i.port_ds.iter().map(|p| format!("{:?}", p.port_state).split('(').next().unwrap_or("").to_string()).collect::<Vec<_>>(), i.parent_ds, i.current_ds.steps_removed, i.time_properties_ds))
+    };
+    let Some(base) = key(w) else { w.emulate_master = false; return E2eOut { out, inconclusive: Some("no observation".into()) } };
+    let log_mark_a = std::fs::metadata(w.dir.join("daemon.log")).map(|m| m.len()).unwrap_or(0);
+    // converged? (one more second, measured)
+    let d = Instant::now() + Duration::from_millis(1000);
+    w.run_until(d);
+    let pre = w.logged_measurements_since(log_mark_a);
+    let worst_pre = pre.iter().map(|m| m.1.unwrap_or(0.0).abs().max(m.2.unwrap_or(0.0).abs())).fold(0.0f64, f64::max);
+    if pre.len() < 4 || worst_pre > 600_000.0 {
+        w.emulate_master = false;
+        return E2eOut { out, inconclusive: Some(format!("not settled before the noise: {} measurements, worst {:.0} ns", pre.len(), worst_pre)) };
+    }
+    let log_mark = std::fs::metadata(w.dir.join("daemon.log")).map(|m| m.len()).unwrap_or(0);
+    w.syncs_sent.clear();
+    w.dreqs_answered.clear();
+    w.frames_b.clear();
+    w.keep_frames = true;
+    let me_slave = w.slave_port_id();
+    let noise_id = PortId { clock: [0x00, 0x1b, 0x19, 0xee, 0, 0, 0, 0x66], port: 1 };
+    let foreign_req = PortId { clock: [0x00, 0x1b, 0x19, 0xee, 0, 0, 0, 0x67], port: 1 };
+    let (dom, sdo) = (w.variant.domain, w.variant.sdo);
+    let aml = w.variant.aml;
+    let run_ms = t.urange(3000, 5000);
+    use std::collections::BTreeMap;
+    let mut classes: BTreeMap<&'static str, u64> = BTreeMap::new();
+    let mut key_changes: Vec<String> = vec![];
+    let t0 = Instant::now();
+    let mut ann_seq = t.below(0x10000) as u16;
+    let mut tick = 0u64;
+    // a frame in the daemon's own domain, then possibly disguised
+    let finish = |t: &mut Tape, mut m: RMsg, disguise: u64, classes: &mut BTreeMap<&'static str, u64>| -> Vec<u8> {
+        m.header.domain = dom;
+        m.header.major_sdo = (sdo >> 8) as u8;
+        m.header.minor_sdo = sdo as u8;
+        let name = match disguise {
+            0 => {
+                m.header.domain = dom.wrapping_add(*t.pick(&[1u8, 2, 128, 255]));
+                "other-domain"
+            }
+            1 => {
+                m.header.major_sdo ^= *t.pick(&[1u8, 2, 8]);
+                "other-majorSdoId"
+            }
+            2 => {
+                m.header.minor_sdo ^= *t.pick(&[1u8, 0x80, 0xff]);
+                "other-minorSdoId"
+            }
+            3 => {
+                m.header.version = 1;
+                "versionPTP-1"
+            }
+            4 => "cut-short",
+            _ => "semantic",
+        };
+        *classes.entry(name).or_default() += 1;
+        let mut b = m.encode();
+        if disguise == 4 {
+            let keep = t.urange(1, 43).min(b.len() as u64 - 1) as usize;
+            b.truncate(keep);
+        }
+        b
+    };
+    while t0.elapsed() < Duration::from_millis(run_ms) {
+        let d = Instant::now() + Duration::from_millis(25);
+        w.run_until(d);
+        tick += 1;
+        let off = {
+            let mag = *t.pick(&[5_000_000i128, 50_000_000, 1_000_000_000, 5_000_000_000]);
+            if t.bool() { mag } else { -mag }
+        };
+        let wrong_time = RTs::from_ns((now_ns() as i128 + off) as u128);
+        let n = t.urange(1, 3);
+        for _ in 0..n {
+            let kind = t.below(if aml { 9 } else { 8 });
+            match kind {
+                // would-be effective frames of every type, disguised at the header / length level
+                0 | 1 => {
+                    let disguise = t.below(5);
+                    let which = t.below(5);
+                    let m = match which {
+                        0 => {
+                            ann_seq = ann_seq.wrapping_add(1);
+                            let mut a = simple_announce(noise_id.clock, 1, 6, 0);
+                            a.gm_identity = noise_id.clock;
+                            let mut m = announce_from(if aml { OTHER } else { noise_id }, ann_seq, a, 0, 0);
+                            m.header.log_interval = ANN_LOG;
+                            m
+                        }
+                        1 => {
+                            let mut m = RMsg::new(T_SYNC, PARENT, w.sync_seq.wrapping_add(1), RBody::Sync { origin: wrong_time });
+                            m.header.log_interval = ANN_LOG;
+                            m
+                        }
+                        2 => RMsg::new(T_FOLLOW_UP, PARENT, w.sync_seq, RBody::FollowUp { precise_origin: wrong_time }),
+                        3 => RMsg::new(T_DELAY_RESP, PARENT, w.seen_a_delay_req.last().copied().unwrap_or(0).wrapping_add(1), RBody::DelayResp { receive: wrong_time, requesting: me_slave }),
+                        _ => RMsg::new(T_DELAY_REQ, foreign_req, t.below(0x10000) as u16, RBody::DelayReq { origin: RTs::default() }),
+                    };
+                    let b = finish(t, m, disguise, &mut classes);
+                    match which {
+                        2 => w.noise_before_fup.push((b, false)),
+                        3 => w.noise_before_dresp.push((b, false)),
+                        4 => {
+                            w.b1.send_bytes(&b, false);
+                        }
+                        _ => {
+                            if t.chance(3, 4) {
+                                w.a1.send_bytes(&b, false);
+                            } else {
+                                w.b1.send_bytes(&b, false);
+                            }
+                        }
+                    }
+                }
+                // an Announce bearing the daemon's own clock identity, better than anything
+                2 => {
+                    ann_seq = ann_seq.wrapping_add(1);
+                    // (the receiving port's own port identity: an Announce from a sibling port of the instance is
+                    // ordinary traffic and does have an effect)
+                    let on_a = t.bool();
+                    let src = if on_a { me_slave } else { PortId { clock: w.own_identity, port: (1 - w.slave_idx) as u16 + 1 } };
+                    let mut a = simple_announce(noise_id.clock, 1, 6, 0);
+                    a.gm_identity = *t.pick(&[noise_id.clock, w.own_identity]);
+                    let mut m = announce_from(src, ann_seq, a, 0, 0);
+                    m.header.log_interval = ANN_LOG;
+                    let b = finish(t, m, 9, &mut classes);
+                    *classes.entry("announce-own-identity").or_default() += 1;
+                    if on_a {
+                        w.a1.send_bytes(&b, false);
+                    } else {
+                        w.b1.send_bytes(&b, false);
+                    }
+                }
+                // a Sync (one- or two-step) from someone who is not the parent
+                3 => {
+                    let src = *t.pick(&[OTHER, PortId { clock: PARENT.clock, port: PARENT.port + 1 }, noise_id]);
+                    let mut m = RMsg::new(T_SYNC, src, if t.bool() { w.sync_seq.wrapping_add(1) } else { t.below(0x10000) as u16 }, RBody::Sync { origin: wrong_time });
+                    m.header.set_flag(F_TWO_STEP, t.bool());
+                    m.header.log_interval = ANN_LOG;
+                    let b = finish(t, m, 9, &mut classes);
+                    *classes.entry("sync-not-from-parent").or_default() += 1;
+                    w.a1.send_bytes(&b, false);
+                }
+                // a Follow_Up from someone who is not the parent, between the parent's Sync and Follow_Up, same sequence id
+                4 => {
+                    let src = *t.pick(&[OTHER, PortId { clock: PARENT.clock, port: PARENT.port + 1 }, noise_id]);
+                    let m = RMsg::new(T_FOLLOW_UP, src, 0, RBody::FollowUp { precise_origin: wrong_time });
+                    let b = finish(t, m, 9, &mut classes);
+                    *classes.entry("follow-up-not-from-parent").or_default() += 1;
+                    w.noise_before_fup.push((b, false));
+                }
+                // a Delay_Resp from someone who is not the parent, ahead of the parent's, same sequence id
+                5 => {
+                    let src = *t.pick(&[OTHER, PortId { clock: PARENT.clock, port: PARENT.port + 1 }, noise_id]);
+                    let m = RMsg::new(T_DELAY_RESP, src, 0, RBody::DelayResp { receive: wrong_time, requesting: me_slave });
+                    let b = finish(t, m, 9, &mut classes);
+                    *classes.entry("delay-resp-not-from-parent").or_default() += 1;
+                    w.noise_before_dresp.push((b, false));
+                }
+                // the parent's Delay_Resp for another requester, ahead of the right one, same sequence id
+                6 => {
+                    let req = *t.pick(&[PortId { clock: w.own_identity, port: me_slave.port + 1 }, PortId { clock: w.own_identity, port: 0xffff }, foreign_req, PortId { clock: { let mut c = w.own_identity; c[7] ^= 1; c }, port: me_slave.port }]);
+                    let m = RMsg::new(T_DELAY_RESP, PARENT, 0, RBody::DelayResp { receive: wrong_time, requesting: req });
+                    let b = finish(t, m, 9, &mut classes);
+                    *classes.entry("delay-resp-for-another-requester").or_default() += 1;
+                    w.noise_before_dresp.push((b, false));
+                }
+                // a Pdelay_Req in another domain on the master port's segment
+                7 => {
+                    let m = RMsg::new(T_PDELAY_REQ, foreign_req, t.below(0x10000) as u16, RBody::PdelayReq { origin: RTs::default(), reserved: [0; 10] });
+                    let d = t.below(3);
+                    let b = finish(t, m, d, &mut classes);
+                    w.b1.send_bytes(&b, false);
+                }
+                // an Announce from outside the acceptable master list (two in a row would qualify it)
+                _ => {
+                    ann_seq = ann_seq.wrapping_add(1);
+                    let mut a = simple_announce(noise_id.clock, 1, 6, 0);
+                    a.gm_identity = noise_id.clock;
+                    let mut m = announce_from(noise_id, ann_seq, a, 0, 0);
+                    m.header.log_interval = ANN_LOG;
+                    let b = finish(t, m, 9, &mut classes);
+                    *classes.entry("announce-outside-acceptable-list").or_default() += 1;
+                    if t.bool() {
+                        w.a1.send_bytes(&b, false);
+                    } else {
+                        w.b1.send_bytes(&b, false);
+                    }
+                }
+            }
+        }
+        if tick % 4 == 0 {
+            if let Some(k) = key(w) {
+                if k != base && key_changes.len() < 3 {
+                    key_changes.push(k);
+                }
+            }
+        }
+    }
+    w.noise_before_fup.clear();
+    w.noise_before_dresp.clear();
+    // let the last honest exchanges finish
+    let d = Instant::now() + Duration::from_millis(300);
+    w.run_until(d);
+    w.keep_frames = false;
+    w.emulate_master = false;
+    let frames = std::mem::take(&mut w.frames_b);
+    let total: u64 = classes.values().sum();
+    let rendered = json!({"run_ms": run_ms, "noise": classes, "acceptable_master_list": aml, "syncs_sent": w.syncs_sent.len(), "delay_requests_answered": w.dreqs_answered.len()});
+    out.render = rendered.clone();
+    if !w.alive() {
+        out.fail("daemon exited", rendered.to_string());
+        return E2eOut { out, inconclusive: None };
+    }
+    if let Some(k) = key_changes.first() {
+        out.fail("daemon: observable state changed while only ignorable traffic was added", format!("before: {} ; during: {} ; {}", base, k, rendered));
+        return E2eOut { out, inconclusive: None };
+    }
+    let ms = w.logged_measurements_since(log_mark);
+    let (mut n_sync, mut n_delay) = (0usize, 0usize);
+    for (ev, rso, rdo) in &ms {
+        if let Some(x) = rso {
+            n_sync += 1;
+            if x.abs() > 2_000_000.0 && out.violation.is_none() {
+                out.fail("daemon: an offset measurement moved while only ignorable traffic was added", format!("raw sync offset {:.0} ns at event time {:.0} (before the noise: at most {:.0} ns) ; {}", x, ev, worst_pre, rendered));
+            }
+        }
+        if let Some(x) = rdo {
+            n_delay += 1;
+            if x.abs() > 2_000_000.0 && out.violation.is_none() {
+                out.fail("daemon: a delay measurement moved while only ignorable traffic was added", format!("raw delay offset {:.0} ns at event time {:.0} (before the noise: at most {:.0} ns) ; {}", x, ev, worst_pre, rendered));
+            }
+        }
+    }
+    if (n_sync > w.syncs_sent.len() + 2 || n_delay > w.dreqs_answered.len() + 2) && out.violation.is_none() {
+        out.fail("daemon: more measurements than honest exchanges", format!("{} offset measurements for {} Syncs, {} delay measurements for {} answered Delay_Reqs ; {}", n_sync, w.syncs_sent.len(), n_delay, w.dreqs_answered.len(), rendered));
+    }
+    // the master port: Announces count on by one with one content; nobody in another domain is answered
+    let mut last_ann: Option<(u16, String)> = None;
+    for (_, m) in &frames {
+        match &m.body {
+            RBody::Announce(a) => {
+                let content = format!("{:?}", (a.gm_identity, a.gm_priority1, a.gm_priority2, a.gm_class, a.steps_removed));
+                if let Some((seq, c)) = &last_ann {
+                    if m.header.seq != seq.wrapping_add(1) && out.violation.is_none() {
+                        out.fail("daemon: Announce sequence of the master port disturbed by ignorable traffic", format!("{} after {} ; {}", m.header.seq, seq, rendered));
+                    }
+                    if *c != content && out.violation.is_none() {
+                        out.fail("daemon: Announce content of the master port changed while only ignorable traffic was added", format!("{} then {} ; {}", c, content, rendered));
+                    }
+                }
+                last_ann = Some((m.header.seq, content));
+            }
+            RBody::DelayResp { requesting, .. } | RBody::PdelayResp { requesting, .. } => {
+                if *requesting == foreign_req && out.violation.is_none() {
+                    out.fail("daemon: a request in another domain / sdoId / version was answered", format!("{} to {:?} ; {}", type_name(m.header.msg_type), requesting, rendered));
+                }
+            }
+            _ => {}
+        }
+    }
+    if total >= 50 && n_sync >= 5 && n_delay >= 5 {
+        out.nontrivial = Some(hash_of(&rendered.to_string()));
+    }
+    out.label(format!("daemon:noise-classes:{}", classes.len()));
+    E2eOut { out, inconclusive: None }
+}
+
 // ---------------------------------------------------------------- C08 case (roles of the real daemon's ports)
 
 /// One case: two masters, P on the first segment (priority1 100) and Q on the second (priority1 50 or 120), come and
@@ -3077,6 +3393,7 @@ pub fn worker_main(args: &[String]) -> i32 {
             "C03" => case_c03(&mut w, &mut tape),
             "C09" => case_c09(&mut w, &mut tape),
             "C08" => case_c08(&mut w, &mut tape),
+            "C07" => case_c07(&mut w, &mut tape),
             "C06" => case_c06(&mut w, &mut tape, idx as u32),
             _ => {
                 println!("{}", json!({"fatal": format!("no end-to-end case for {}", prop)}));
